@@ -89,6 +89,10 @@ func (p *SocketBabbleProxyServer) CommitBlock(block hashgraph.Block, response *p
 func (p *SocketBabbleProxyServer) GetSnapshot(blockIndex int, snapshot *[]byte) (err error) {
 	*snapshot, err = p.handler.SnapshotHandler(blockIndex)
 	err = rpcError("SnapshotHandler", err)
+	if *snapshot == nil {
+		// a nil slice is encoded as JSON null, which the jsonrpc client rejects
+		*snapshot = []byte{}
+	}
 
 	p.logger.WithFields(logrus.Fields{
 		"block":    blockIndex,
@@ -103,6 +107,9 @@ func (p *SocketBabbleProxyServer) GetSnapshot(blockIndex int, snapshot *[]byte) 
 func (p *SocketBabbleProxyServer) Restore(snapshot []byte, stateHash *[]byte) (err error) {
 	*stateHash, err = p.handler.RestoreHandler(snapshot)
 	err = rpcError("RestoreHandler", err)
+	if *stateHash == nil {
+		*stateHash = []byte{}
+	}
 
 	p.logger.WithFields(logrus.Fields{
 		"state_hash": stateHash,
